@@ -18,11 +18,11 @@ import (
 )
 
 func init() {
-	Register(&Rule{Name: "FX-RBW", Floor: 25, Run: runFxRBW,
+	Register(&Rule{Name: "FX-RBW", Floor: 12, Run: runFxRBW,
 		Doc: "a result-defining operation never reads the form, sign, accuracy, exponent or mantissa words its receiver held on entry (with no read there is no dependence on previous contents)"})
-	Register(&Rule{Name: "FX-ACC", Floor: 12, Run: runFxAcc,
+	Register(&Rule{Name: "FX-ACC", Floor: 8, Run: runFxAcc,
 		Doc: "every operation documented to round into its receiver writes the accuracy on every success exit"})
-	Register(&Rule{Name: "FX-RAW", Floor: 20, Run: runFxRAW,
+	Register(&Rule{Name: "FX-RAW", Floor: 12, Run: runFxRAW,
 		Doc: "under aliasing of receiver and operand, no value field of the operand is read after the same field of the receiver was written"})
 }
 
